@@ -109,7 +109,8 @@ func VH_C03_Op() {
 			joined = []string{jp.PlayerID}
 		}
 		if err == nil && !wasSeated {
-			verifrt.Assert(jp.Seat == -1 || te.table.State.PlayerStates[n].Seat == jp.Seat, "a fixed-seat reservation gets that seat")
+			idx := te.table.FindPlayerIdx(jp.PlayerID)
+			verifrt.Assert(idx >= 0 && (jp.Seat == -1 || te.table.State.PlayerStates[idx].Seat == jp.Seat), "a fixed-seat reservation gets that seat")
 		}
 		if full && !wasSeated {
 			verifrt.Assert(err != nil, "a full table refuses a new player")
